@@ -28,14 +28,14 @@ use std::net::SocketAddr;
 use std::sync::Arc;
 use tokio::sync::{Mutex, RwLock};
 
-struct Live {
-    addr: SocketAddr,
-    backend: ServerBackend,
-    handle: axum_server::Handle,
-    _tmp: tempfile::TempDir,
+pub struct Live {
+    pub addr: SocketAddr,
+    pub backend: ServerBackend,
+    pub handle: axum_server::Handle,
+    pub _tmp: tempfile::TempDir,
 }
 
-async fn start_server(access: Option<AccessControlConfig>) -> anyhow::Result<Live> {
+pub async fn start_server(access: Option<AccessControlConfig>) -> anyhow::Result<Live> {
     let base = std::path::Path::new("/verif/run/tmp");
     std::fs::create_dir_all(base)?;
     let tmp = tempfile::Builder::new().prefix("srv").tempdir_in(base)?;
@@ -61,14 +61,14 @@ async fn start_server(access: Option<AccessControlConfig>) -> anyhow::Result<Liv
     Ok(Live { addr, backend, handle, _tmp: tmp })
 }
 
-struct Acct {
-    account: Arc<Mutex<LocalAccount>>,
-    id: AccountId,
-    signer: BoxedEd25519Signer,
+pub struct Acct {
+    pub account: Arc<Mutex<LocalAccount>>,
+    pub id: AccountId,
+    pub signer: BoxedEd25519Signer,
     _tmp: tempfile::TempDir,
 }
 
-async fn new_account(name: &str) -> anyhow::Result<Acct> {
+pub async fn new_account(name: &str) -> anyhow::Result<Acct> {
     let base = std::path::Path::new("/verif/run/tmp");
     let tmp = tempfile::Builder::new().prefix("acct").tempdir_in(base)?;
     let paths = Paths::new_client(tmp.path());
@@ -86,7 +86,7 @@ fn origin(addr: &SocketAddr) -> Origin {
     Origin::new("verif".to_string(), format!("http://{}:{}", addr.ip(), addr.port()).parse().unwrap())
 }
 
-async fn sync_http(acct: &Acct, addr: &SocketAddr) -> Result<(), String> {
+pub async fn sync_http(acct: &Acct, addr: &SocketAddr) -> Result<(), String> {
     let client = HttpClient::new(HttpClientOptions {
         account_id: acct.id, origin: origin(addr), device_signer: acct.signer.clone(),
         connection_id: "verif".into(), network_config: Default::default(),
@@ -96,7 +96,7 @@ async fn sync_http(acct: &Acct, addr: &SocketAddr) -> Result<(), String> {
     b.execute_sync(&SyncOptions::default()).await.map(|_| ()).map_err(|e| e.to_string())
 }
 
-async fn token(signer: &BoxedEd25519Signer, bytes: &[u8]) -> String {
+pub async fn token(signer: &BoxedEd25519Signer, bytes: &[u8]) -> String {
     let sig = signer.sign(bytes).await.unwrap();
     let b: BinaryEd25519Signature = sig.into();
     bs58::encode(sos_core::encode(&b).await.unwrap()).into_string()
